@@ -58,6 +58,8 @@ type c17Case struct {
 	Accepted   bool      `json:"accepted"`
 	Clean      []int     `json:"clean,omitempty"`
 	Limit      int       `json:"limit"`
+	LimitArg   int       `json:"limit_arg"`     // the value given on the command line (0: none)
+	DefaultLim int       `json:"default_limit"` // ValidateLimit(0)
 	LimitOK    bool      `json:"limit_ok"`
 	Engine     []c17Item `json:"engine"`
 	Recovery   []c17Item `json:"recovery"`
@@ -328,6 +330,8 @@ func c17Search(r *rand.Rand, bin, dir string, id int) c17Case {
 	vl, lerr := validation.ValidateLimit(limit)
 	c.LimitOK = lerr == nil
 	c.Limit = vl
+	c.LimitArg = limit
+	c.DefaultLim, _ = validation.ValidateLimit(0)
 	if c.Accepted && c.LimitOK {
 		db, err := database.LoadDatabaseWithPersonal(dbfile, filepath.Join(home, ".config", "cmd-finder", "personal.yml"))
 		if err == nil {
